@@ -22,7 +22,7 @@ Only the FIRST failing stage of a pipeline is reported (later stages inherit the
 Labels: ``<step variant>:<input features>:<facet>``.
 
 Calibration
-* see CALIBRATION below (filled while triaging alarms on the unchanged tree).
+* see CALIBRATION below (filled while triaging alarms on the unchanged tree) and the domain notes in vf/gen/c25_ops.py.
 """
 from __future__ import annotations
 
@@ -59,10 +59,35 @@ TECHNIQUE = "runtime monitoring: per-stage, per-block metadata oracle + NumPy di
 CASE_TIMEOUT = 60
 
 SHORT_AXIS = "axis-of-length<=1-in-several-chunks"
+MAX_BLOCKS = 120
 BLOCKVIEW_0D = "blocks-view:0-d-array:block-is-not-the-value"
-PENDING = {}
+PENDING = {
+    BLOCKVIEW_0D: "x.blocks[()] of any 0-d dask array computes to the array's key NAME (a str), not to its value "
+                  "(BlockView.__getitem__ builds the graph from a (1,1) key array); findings_proposed/C25.md #1, fix proposed",
+    "aligned-op:axis-of-length<=1-in-several-chunks:blocks-do-not-match-chunks":
+        "unify_chunks rechunks an operand axis of total length <= 1 that is split into several (zero-size) chunks to ONE chunk but "
+        "reports the old chunks: x[mask].compute_chunk_sizes() + 1 declares chunks (0,1,0,0) over a one-block graph -> wrong "
+        "shape/values or IndexError/missing keys when blocks are computed; findings_proposed/C25.md #2, fix proposed",
+    "reduce.minmax:zero-length:lazy-shape": "min/max over an axis of an array whose OTHER axis has length 0: lazy shape (0,3), computed "
+                                            "(1,0) (chunk_min/chunk_max return a 1x..x0 placeholder for every empty block); C25.md #3, fix proposed",
+    "searchsorted:zero-length:lazy-shape": "same mechanism as reduce.minmax (searchsorted ends with out.max(axis=0)); C25.md #3",
+    "bincount:max>=minlength:lazy-shape": "da.bincount(x, minlength=m) declares shape (m,) although the result is longer whenever "
+                                          "x.max() >= m; C25.md #4, no safe small fix (known finding)",
+}
 
-CALIBRATION = []
+CALIBRATION = [
+    "dask raising while a step is BUILT, or while a whole stage is computed although all earlier stages are consistent and the "
+    "stage's own blocks (if computable) agree with .chunks: the expression has no computed result, the statement does not speak; "
+    "recorded (build-refused:/compute-refused: in the operation histogram, skipped when nothing could be checked), not alarmed. "
+    "Classes seen: reshape NotImplementedError (merge/split only), setitem IndexError/ValueError for int+negative-step / array values, "
+    "max over unknown-size blocks (_concatenate2 ValueError), zero-length inputs to reshape/ravel/roll/unique/argwhere/"
+    "flatnonzero/pad/repeat/triu, diff on bool, argwhere of 0-d, timedelta sum(keepdims) — all belong to C20-C27.",
+    "vs-numpy differences with self-consistent dask metadata were moved out of the generator (they are value defects of C20/C24): "
+    "int next to a fancy index (NumPy advanced-index axis order), reflect/symmetric/wrap pad wider than the axis, stat_length "
+    "longer than the axis, integer 'mean'/'linear_ramp' pads, pads of non-finite data, datetime/timedelta inputs.",
+    "block_info-free: the 0-d block view finding is reported once per case and does not stop the remaining checks of the case.",
+    "programs are cut before a stage with more than MAX_BLOCKS blocks (run time bound of the generator).",
+]
 
 FIXED = [
     {"op": "unary", "fn": "neg"},
@@ -89,7 +114,7 @@ def cases(tier, seed):
             for s2 in FIXED:
                 yield {"space": "exhaustive", "shape": [2, 3], "dtype": "int64", "seed": 3, "chunks": [list(c) for c in ch],
                        "steps": [s1, s2], "threads": False}
-    n = 2600 if tier == "quick" else 45000
+    n = 2200 if tier == "quick" else 40000
     for _ in range(n):
         c = _gen_pipeline(rng)
         if c is not None:
@@ -122,7 +147,7 @@ def _gen_pipeline(rng):
                     nv = np.asarray(O.apply_step(st, v, "np"))
                 except Exception:  # noqa: BLE001  (NumPy refuses: draw another step)
                     continue
-                if nv.size > 400 or nv.ndim > 4 or nv.dtype.kind not in "biufcMm":
+                if nv.size > 240 or nv.ndim > 4 or nv.dtype.kind not in "biufcMm":
                     continue
                 steps.append(st)
                 v = nv
@@ -272,6 +297,10 @@ def run_case(case, ctx):
                 if not isinstance(r, da.Array):
                     ctx.violation("%s:%s:result-not-a-dask-array" % (O.variant(st), _features(st, stages[-1], exp[k])), "got %r" % (type(r),))
                     return
+                if int(np.prod(r.numblocks)) > MAX_BLOCKS:
+                    # generator-domain bound decided at run time: the program ends before a stage with a huge block grid
+                    ctx.count("truncated_at_large_block_grid")
+                    break
                 stages.append(r)
             ctx.nontrivial = len(stages) >= 3 and A.has_split(chunks)
             # ---- one joint compute of all stages -----------------------------------------------
